@@ -22,7 +22,7 @@ def check(ctx, src):
     ctx.require(f is not None, f"{FN} not found")
     # --- polarity table
     ops = pyq.contains(f, lambda n: isinstance(n, ast.Assign) and norm(n.targets[0]) == "ops" and isinstance(n.value, ast.Dict))
-    ctx.require(ops is not None, "ops table not found")
+    ctx.need(ops is not None, "ops table not found")
     table = fold(ops.value)
     ctx.check(table == {"and": ("ast.And", True), "or": ("ast.Or", None)}, "BOOL-POLARITY", f"{R}|{FN}|ops", f"ops table is {table}", R, ops.lineno,
               witness="(and) / (or) / the operator node are wrong", detail=str(table))
@@ -36,7 +36,7 @@ def check(ctx, src):
     py = src.hy("hy/pyops.hy")
     for name, want in (("and", "True"), ("or", "None")):
         d = py.defn(name)
-        ctx.require(d is not None, f"pyops {name} not found")
+        ctx.need(d is not None, f"pyops {name} not found")
         doc = d.items[3]
         kv = {doc.items[i].val: doc.items[i + 1] for i in range(1, len(doc.items) - 1, 2) if doc.items[i].kind == "kw"}
         nl = kv.get("nullary")
@@ -47,11 +47,11 @@ def check(ctx, src):
                   detail=f"{want} three ways")
     # --- order
     loop = next((n for n in pyq.walk_no_nested(f) if isinstance(n, ast.For)), None)
-    ctx.require(loop is not None, "operand loop not found")
+    ctx.need(loop is not None, "operand loop not found")
     ctx.check(norm(loop.iter) == "map(compiler.compile, args)", "BOOL-ORDER", f"{R}|{FN}|iteration", f"operands are iterated as `{norm(loop.iter)}`", R, loop.lineno,
               witness="operands are evaluated in another order", detail="map(compiler.compile, args)")
     enb = next((n for n in ast.walk(f) if isinstance(n, ast.FunctionDef) and n.name == "enbool"), None)
-    ctx.require(enb is not None, "enbool not found")
+    ctx.need(enb is not None, "enbool not found")
     app = pyq.contains(enb, lambda n: isinstance(n, ast.Call) and norm(n) == "expr.values.append(value)")
     new = pyq.contains(enb, lambda n: isinstance(n, ast.Call) and dotted(n.func) == "asty.BoolOp")
     ctx.check(app is not None and new is not None and "values=[expr, value]" in norm(new) and "op=opnode()" in norm(new), "BOOL-ORDER", f"{R}|{FN}|enbool",
@@ -66,7 +66,7 @@ def check(ctx, src):
     sets_true = [n for n in ast.walk(enb) if isinstance(n, ast.Assign) and norm(n) == "can_append = True"]
     ctx.check(len(sets_true) == 1, "BOOL-APPEND", f"{R}|{FN}|flag-set-on-create", "the flag must be set exactly where a new BoolOp is created", R, enb.lineno, detail="set on creation")
     put = next((n for n in ast.walk(f) if isinstance(n, ast.FunctionDef) and n.name == "put"), None)
-    ctx.require(put is not None, "put not found")
+    ctx.need(put is not None, "put not found")
     ctx.check(any(norm(s) == "can_append = False" for s in put.body) and any(isinstance(s, ast.Nonlocal) and "can_append" in s.names for s in put.body), "BOOL-APPEND",
               f"{R}|{FN}|put-clears-flag", "put() replaces the current expression (a new assignment) but does not clear the flag", R, put.lineno,
               witness="(and a b (do (s) (or p q)) c): c is appended inside the wrong BoolOp", detail="can_append = False in put")
@@ -75,7 +75,7 @@ def check(ctx, src):
               f"{R}|{FN}|first-clears-flag", "the first operand must clear the flag", R, loop.lineno, detail="cleared")
     # --- statement-bearing operand
     arm = first_arm.orelse[0] if first_arm is not None and first_arm.orelse and isinstance(first_arm.orelse[0], ast.If) else None
-    ctx.require(arm is not None and norm(arm.test) == "value.stmts", "the statement-bearing operand arm was not found")
+    ctx.need(arm is not None and norm(arm.test) == "value.stmts", "the statement-bearing operand arm was not found")
     texts = [norm(s) for s in arm.body]
     ctx.check("branch = asty.If(node, test=cond, body=value.stmts, orelse=[])" in texts and "stmts.append(branch)" in texts and "stmts = branch.body" in texts, "BOOL-ORDER",
               f"{R}|{FN}|nesting", "a statement-bearing operand must be placed in an If appended to the current statement list, and later operands must nest inside that If's body",
@@ -85,7 +85,7 @@ def check(ctx, src):
               witness="(and 1 (setv x 5)) returns 1 instead of None", detail="stmts.append(put(node, value.force_expr))")
     ctx.check("cond = get(node)" in texts, "BOOL-VALUE", f"{R}|{FN}|guard-from-temp", "the guard must read the temporary (creating it from the value so far)", R, arm.lineno, detail="cond = get(node)")
     get = next((n for n in ast.walk(f) if isinstance(n, ast.FunctionDef) and n.name == "get"), None)
-    ctx.require(get is not None, "get not found")
+    ctx.need(get is not None, "get not found")
     ctx.check(pyq.contains(get, lambda n: isinstance(n, ast.If) and norm(n.test) == "var is None" and "stmts.append(put(node, ret.force_expr))" in [norm(s) for s in n.body]) is not None,
               "BOOL-VALUE", f"{R}|{FN}|first-store", "get() must first store the value computed so far", R, get.lineno, detail="put(node, ret.force_expr)")
     fin = pyq.contains(f, lambda n: isinstance(n, ast.If) and norm(n.test) == "var" and "ret.expr = get(expr)" in [norm(s) for s in n.body])
